@@ -260,6 +260,9 @@ def linear_form(t) -> dict:
 def phi(cond, a, b):
     if a == b:
         return a
+    # canonical orientation: `x if not c else y` is `y if c else x`
+    while isinstance(cond, tuple) and cond and cond[0] == "not":
+        cond, a, b = cond[1], b, a
     if cond == TRUE:
         return a
     if cond == FALSE:
